@@ -128,7 +128,12 @@ theorem sdf_seekEnd_good (sep : Str) : Good (Rd.Sdf.seekEnd sep) := by
     by_cases hx : x = sep
     · simp [hx, Clean] at hl ⊢; omega
     · simp only [beq_iff_eq, hx, ↓reduceIte]
-      exact ih (k + 1) (by simp only [List.length_cons] at hl; omega)
+      have := ih (k + 1) (by simp only [List.length_cons] at hl; omega)
+      rcases hgo : Rd.Sdf.seekEndGo sep r (k + 1) with ⟨res, l'⟩
+      rw [hgo] at this
+      cases res with
+      | ok a => exact ⟨this.1, by have := this.2; simp at this ⊢; omega⟩
+      | error e => exact this
 
 theorem sdf_good (T : Tables) (L : Rd.Sdf.Layout) : Good (Rd.Sdf.loadOne T L) := by
   unfold Rd.Sdf.loadOne
@@ -186,6 +191,139 @@ theorem sdf_load_one (T : Tables) (L : Rd.Sdf.Layout) (ls : List Str) (path : Na
     ∃ st', runLoadOne loadOne (behOf (Rd.Sdf.read T L ls) ls.length) path fs
         = (apiOutcome (Rd.Sdf.read T L ls), st') ∧
       IsObjOrLoadError (apiOutcome (Rd.Sdf.read T L ls)) ∧ st'.fs = fs ∧
+      ∃ evs, st'.trace = .close :: (evs ++ [.openR]) ∧ LoadEvs evs :=
+  reader_load_one _ _ _ _
+
+
+/-! ## MOL2 -/
+
+theorem mol2_molHeader_good (st : Rd.Mol2.LoopSt) : Good (Rd.Mol2.molHeader st) := by
+  unfold Rd.Mol2.molHeader
+  exact good_bind good_next fun _ => good_bind good_next fun _ => good_bind (good_liftE _) fun _ =>
+    good_bind (good_liftE _) fun _ => good_bind (good_liftE _) fun _ => good_bind (good_liftE _) fun _ =>
+    good_pure _
+
+theorem mol2_atomSec_good (st : Rd.Mol2.LoopSt) : Good (Rd.Mol2.atomSec st) := by
+  unfold Rd.Mol2.atomSec
+  split
+  · exact good_raise _
+  · exact good_bind (good_liftE _) fun _ => good_bind (good_liftE _) fun _ => good_bind (good_liftE _) fun _ =>
+      good_bind (good_repeatN (good_bind good_next fun _ => good_liftE _) _) fun _ => good_pure _
+
+theorem mol2_bondSec_good (st : Rd.Mol2.LoopSt) : Good (Rd.Mol2.bondSec st) := by
+  unfold Rd.Mol2.bondSec
+  split
+  · exact good_raise _
+  · refine good_bind (good_liftE _) fun _ =>
+      good_bind (good_repeatN (good_bind good_next fun _ => good_liftE _) _) fun _ => ?_
+    split
+    · exact good_raise _
+    · exact good_pure _
+
+theorem mol2_body_good (st : Rd.Mol2.LoopSt) (w0 : Str) : Good (Rd.Mol2.body st w0) := by
+  unfold Rd.Mol2.body
+  exact good_bind (good_ite (mol2_molHeader_good _) (good_pure _)) fun p =>
+    good_bind (good_ite (mol2_atomSec_good _) (good_pure _)) fun st2 =>
+    good_ite (mol2_bondSec_good _) (good_pure _)
+
+/-- the record loop with more fuel than unread lines ends (every iteration consumes a line), in a state whose
+counter is consistent -/
+theorem mol2_loop (f : Nat) : ∀ (st : Rd.Mol2.LoopSt) (l : Lit) (total : Nat), Clean total l → l.rest.length < f →
+    ∃ r l', Rd.Mol2.loop f st l = some (r, l') ∧ Wf total l' := by
+  induction f with
+  | zero => intro st l total _ h; omega
+  | succ f ih =>
+    intro st l total hl hf
+    rcases l with ⟨rest, k⟩
+    simp only [Clean] at hl
+    unfold Rd.Mol2.loop
+    cases rest with
+    | nil => exact ⟨_, _, rfl, Or.inr ⟨rfl, by simp at hl ⊢; omega⟩⟩
+    | cons line r =>
+      simp only [List.length_cons] at hl hf
+      have hclean : Clean total ⟨r, k + 1⟩ := by simp [Clean]; omega
+      dsimp only
+      by_cases hlen : line.length > 1
+      · simp only [hlen, if_true]
+        cases hsp : splitWs line with
+        | nil => exact ⟨_, _, rfl, Or.inl hclean⟩
+        | cons w0 ws =>
+          dsimp only
+          by_cases hb : (w0 == Rd.Mol2.tMOLECULE && st.res.isSome) = true
+          · simp only [hb, if_true]
+            exact ⟨_, _, rfl, Or.inl (by simp [Clean]; omega)⟩
+          · simp only [hb]
+            have hg := mol2_body_good st w0 total ⟨r, k + 1⟩ hclean
+            rcases hbody : Rd.Mol2.body st w0 ⟨r, k + 1⟩ with ⟨res, l'⟩
+            rw [hbody] at hg
+            cases res with
+            | ok st' =>
+              dsimp only
+              refine ih st' l' total hg.1 ?_
+              have h1 := hg.1; have h2 := hg.2
+              simp only [Clean] at h1 h2
+              omega
+            | error e => exact ⟨_, _, rfl, hg⟩
+      · simp only [hlen, if_false]
+        exact ih st ⟨r, k + 1⟩ total hclean (by simp; omega)
+
+/-- **mol2_fuel** (the fuel bound): `N + 1` iterations of the record loop are enough for a file of `N` lines —
+the reader never runs out of fuel, i.e. the real `while True` loop terminates on every content. -/
+theorem mol2_fuel (ls : List Str) : (Rd.Mol2.loadOneF (ls.length + 1) ⟨ls, 0⟩).isSome = true := by
+  obtain ⟨r, l', h, -⟩ := mol2_loop (ls.length + 1) {} ⟨ls, 0⟩ ls.length (by simp [Clean]) (by simp)
+  unfold Rd.Mol2.loadOneF
+  rw [h]
+  cases r <;> rfl
+
+/-- **mol2_terminates**: on any list of lines the MOL2 reader returns an object or raises a class of the
+enumeration (never the out-of-fuel default), after at most `N + 1` reads. -/
+theorem mol2_terminates (ls : List Str) :
+    (∃ r l', Rd.Mol2.loadOneF (ls.length + 1) ⟨ls, 0⟩ = some (r, l') ∧ Rd.Mol2.read ls = ⟨r, l'.lineno⟩) ∧
+    (Rd.Mol2.read ls).lineno ≤ ls.length + 1 := by
+  obtain ⟨r, l', h, hw⟩ := mol2_loop (ls.length + 1) {} ⟨ls, 0⟩ ls.length (by simp [Clean]) (by simp)
+  have hle : l'.lineno ≤ ls.length + 1 := by
+    rcases hw with h1 | ⟨_, h2⟩
+    · simp only [Clean] at h1; omega
+    · omega
+  unfold Rd.Mol2.read Rd.Mol2.loadOneF
+  rw [h]
+  cases r with
+  | ok st => exact ⟨⟨_, _, rfl, rfl⟩, hle⟩
+  | error e => exact ⟨⟨_, _, rfl, rfl⟩, hle⟩
+
+/-- **mol2_shapes**: a returned MOL2 result has `atcoords (natom, 3)`, `atnums (natom,)`, `natom` charges and
+`natom` atom types (the `atffparams` entry no validator looks at), bonds `(nbond, 3)` when present, and passes the
+constructor. -/
+theorem mol2_shapes (ls : List Str) (o : RObj) (h : (Rd.Mol2.read ls).res = .ok o) :
+    ∃ n, o.natom = some n ∧ o.FullyConsistent n ∧ ctorE o = none := by
+  have key : ∀ st, Rd.Mol2.finish st = .ok o → ∃ n, o.natom = some n ∧ o.FullyConsistent n ∧ ctorE o = none := by
+    intro st hf
+    unfold Rd.Mol2.finish at hf
+    split at hf
+    · cases hf
+    · cases hf
+    · rename_i n _ nb _ _
+      split at hf
+      · cases hf
+      · injection hf with hf
+        subst hf
+        refine ⟨n, rfl, ⟨⟨?_, ?_, ?_, ?_, ?_, ?_⟩, ?_, ?_⟩, ?_⟩ <;>
+          (cases st.bonds <;> simp [ctorE, ctorOk, RObj.natom, optShape, shapeMatch, lenOf])
+  unfold Rd.Mol2.read Rd.Mol2.loadOneF at h
+  cases hl : Rd.Mol2.loop (ls.length + 1) {} ⟨ls, 0⟩ with
+  | none => rw [hl] at h; cases h
+  | some p =>
+    rw [hl] at h
+    rcases p with ⟨r, l'⟩
+    cases r with
+    | ok st => exact key st h
+    | error e => cases h
+
+/-- **mol2_load_one**: `load_one` on any MOL2 file content returns an object with consistent shapes or raises
+`LoadError` (the unbound-variable paths of the parser included); the file is closed. -/
+theorem mol2_load_one (ls : List Str) (path : Nat) (fs : FS) :
+    ∃ st', runLoadOne loadOne (behOf (Rd.Mol2.read ls) ls.length) path fs = (apiOutcome (Rd.Mol2.read ls), st') ∧
+      IsObjOrLoadError (apiOutcome (Rd.Mol2.read ls)) ∧ st'.fs = fs ∧
       ∃ evs, st'.trace = .close :: (evs ++ [.openR]) ∧ LoadEvs evs :=
   reader_load_one _ _ _ _
 
